@@ -65,6 +65,8 @@ def search(chk, broken):
     n = 12 if (chk.tier == 'quick' and not broken) else 500
     evals = 0
     for _ in range(n):
+        if chk.over():
+            break
         calc = pbc.Calculator(_config=sg.gen_config(rng, 0.7))
         shot, _ = sg.gen_shot(pbc, rng, flat=True)
         R = rng.choice([600.0, 1500.0, 2400.0])
